@@ -126,9 +126,11 @@ def apply_mutation(msg, lay, mut):
         if kind == "size-suffix":
             return msg[:b] + mut["text"] + msg[b:], b, "size"
         return msg[:a] + msg[b:], a, "size"
-    if kind in ("crlf-replace", "crlf-delete"):
+    if kind in ("crlf-replace", "crlf-delete", "crlf-junk"):
         ent = lay["chunks"][mut["chunk"] % len(lay["chunks"])]
         a, b = ent["crlf"]
+        if kind == "crlf-junk":                  # data JUNK CRLF: everything behind the junk is well-formed
+            return msg[:a] + mut["text"] + msg[a:], a, "crlf"
         if kind == "crlf-delete":
             return msg[:a] + msg[b:], a, "crlf"
         p = a + (mut["pos"] % 2)
@@ -151,6 +153,8 @@ def mutation_valid(case, lay, mut):
         return bool(mut["text"]) and any(c not in HEX for c in mut["text"]) and b";" not in mut["text"]
     if kind == "size-empty":
         return True
+    if kind == "crlf-junk":
+        return bool(lay["chunks"]) and bool(mut["text"]) and (mut["text"] + b"\r\n")[:2] != b"\r\n"
     if kind in ("crlf-replace", "crlf-delete"):
         if not lay["chunks"]:
             return False
@@ -216,6 +220,36 @@ def ref_decode(s):
         pos += 2
 
 
+def after_rejection(ctx, case, dec, got, fin, later):
+    """"... are rejected": a rejected stream stays rejected.  Whatever reaches the decoder afterwards
+    -- the rest of the same stream (HTTPChannel keeps feeding what it has already read), empty
+    wake-ups that make it look at its buffer again, a well-formed tail -- produces no body bytes and
+    no completion, and the end of the stream is data loss.  Raising again is allowed, not required."""
+    from twisted.web.http import _MalformedChunkedDataError, _DataLoss
+    n_got = len(got)
+    again = 0
+    for seg in list(later) + [b"", b"", b"\r\n", b"0\r\n\r\n", b""]:
+        try:
+            dec.dataReceived(seg)
+        except _MalformedChunkedDataError:
+            again += 1
+        if len(got) != n_got:
+            ctx.violation("body-bytes-delivered-after-rejection", case,
+                          f"after the error, feeding {seg[:30]!r} delivered {b''.join(got[n_got:])[:60]!r} (state {dec.state})")
+        if fin:
+            ctx.violation("completion-signalled-after-rejection", case,
+                          f"after the error, feeding {seg[:30]!r} fired finishCallback({fin[0][:40]!r})")
+    try:
+        dec.noMoreData()
+    except _DataLoss:
+        pass
+    else:
+        ctx.violation("no-data-loss-after-rejection", case, f"state {dec.state}")
+    ctx.count("fed on after rejection (rest of stream + wake-ups + well-formed tail)")
+    if again:
+        ctx.count("... and the decoder raised again")
+
+
 def run_raw(ctx, case):
     """Arbitrary bytes: after every delivery the decoder must be exactly where the reference
     decoder is on the bytes delivered so far."""
@@ -226,7 +260,7 @@ def run_raw(ctx, case):
     dec = _ChunkedTransferDecoder(got.append, fin.append)
     pos = 0
     verdict = ("incomplete", b"")
-    for seg in segments:
+    for si, seg in enumerate(segments):
         pos += len(seg)
         verdict = ref_decode(stream[:pos])
         if verdict[0] == "skip":
@@ -244,6 +278,7 @@ def run_raw(ctx, case):
                               f"reference: malformed within {stream[:pos][-40:]!r}; decoder: data {data[-40:]!r} finish {fin!r} state {dec.state}")
             ctx.check(not fin, "raw-finish-on-malformed", case, f"{fin!r}")
             ctx.check(verdict[1].startswith(data), "raw-data-not-a-prefix", case, f"{data[:60]!r} vs {verdict[1][:60]!r}")
+            after_rejection(ctx, case, dec, got, fin, segments[si + 1:])
             ctx.count("raw: rejected")
             return
         if raised is not None:
@@ -311,13 +346,15 @@ def run_case(ctx, case):
     pos = 0
     rejected_in = None
     fin_seg_end = None
-    for seg in segments:
+    later = []
+    for si, seg in enumerate(segments):
         seg_end = pos + len(seg)
         before = len(fin)
         try:
             dec.dataReceived(seg)
         except _MalformedChunkedDataError as e:
             rejected_in = (pos, seg_end, str(e))
+            later = segments[si + 1:]
             break
         pos = seg_end
         if any(len(g) == 0 for g in got):
@@ -341,7 +378,10 @@ def run_case(ctx, case):
         ctx.check(not fin, "finish-callback-on-malformed-input", case, f"{fin!r}")
         ctx.check(body.startswith(data), "data-not-a-prefix-of-body-before-rejection", case,
                   f"data {data[:80]!r} body {body[:80]!r}")
+        after_rejection(ctx, case, dec, got, fin, later)
         ctx.count(f"rejected: {mut_class}")
+        if mut["kind"] == "crlf-junk":
+            ctx.count("rejected: junk between chunk data and its CRLF (stream well-formed again behind it)")
     elif trunc is not None:
         # ---- truncation half -----------------------------------------------------
         ctx.check(rejected_in is None, "valid-prefix-rejected", case, f"{rejected_in!r}")
@@ -478,6 +518,8 @@ def small_scope(mi):
                     muts.append(dict(kind="ext-bad", chunk=ei, pos=p, byte=byte))
     for ci, e in enumerate(lay["chunks"]):
         muts.append(dict(kind="crlf-delete", chunk=ci))
+        for text in (b"X", b"XY", b"XYZ", b"WXYZ", b"\r", b"\n\r", b"\n", b"0\r", b"ab\r\ncd", b"\x00\x00"):
+            muts.append(dict(kind="crlf-junk", chunk=ci, text=text))
         for p in (0, 1):
             for byte in (0x0D, 0x0A, 0x20, 0x00, 0x30, 0x58, 0xFF):
                 muts.append(dict(kind="crlf-replace", chunk=ci, pos=p, byte=byte))
@@ -521,6 +563,8 @@ def case_strategy():
         st.builds(lambda c: dict(kind="size-empty", chunk=c), st.integers(0, 8)),
         st.builds(lambda c, p, b: dict(kind="crlf-replace", chunk=c, pos=p, byte=b), st.integers(0, 8), st.integers(0, 1), st.integers(0, 255)),
         st.builds(lambda c: dict(kind="crlf-delete", chunk=c), st.integers(0, 8)),
+        st.builds(lambda c, t: dict(kind="crlf-junk", chunk=c, text=t), st.integers(0, 8),
+                  st.one_of(st.binary(min_size=1, max_size=6), st.sampled_from([b"XY", b"WXYZ", b"\n\r", b"0\r"]))),
         st.builds(lambda c, p, b: dict(kind="ext-bad", chunk=c, pos=p, byte=b), st.integers(0, 8), st.integers(0, 1000), st.sampled_from(list(EXT_DISALLOWED))),
     )
     cuts = st.one_of(st.just("whole"), st.just("bytewise"),
